@@ -637,6 +637,15 @@ class World:
                 pixels = tuple(np.asarray(a, dtype=pdt) for a in op["pixels"])
             # (an id the label dtype cannot hold stays a Python int: numpy scalars wrap silently)
             node = op["node"] if op.get("bad_pixels") == "label_beyond_dtype" else rep(op["node"])
+            if op.get("reuse_attrs") and getattr(self, "_last_add_attrs", None) is not None:
+                # the caller keeps one attribute dict and re-uses it for the next node: it sets the
+                # keys it knows about (the ones it passed before) and hands the same object over
+                obj = self._last_add_attrs
+                for k_ in self._last_add_keys:
+                    obj.pop(k_, None)
+                obj.update(attrs)
+                attrs = obj
+            self._last_add_attrs, self._last_add_keys = attrs, list(attrs)
             out.action = ua.UserAddNode(tr, node, attrs, pixels=pixels, force=op.get("force", False))
         elif kind == "delete_node":
             if op.get("known_pixels") and tr.segmentation is not None and op["node"] in tr.graph:
@@ -1029,6 +1038,8 @@ def _gen_add_node(world, rnd, bad) -> dict:
                     bad_pixels = "out_of_bounds"
     op = {"op": "add_node", "node": node, "attrs": attrs, "pixels": pixels,
           "force": rnd.random() < 0.45}
+    if not bad and rnd.random() < 0.2:
+        op["reuse_attrs"] = True
     if bad_pixels:
         op["bad_pixels"] = bad_pixels
         op["force"] = rnd.random() < 0.75
